@@ -42,8 +42,6 @@ structure View where
   up : Bool := false
   /-- engine.io session id (the default namespace sid) -/
   esid : Option Str := none
-  /-- namespaces of the current `connect()` -/
-  req : List Ns := []
   /-- asked for and not yet answered -/
   asked : List Ns := []
   /-- accepted and not yet ended, with the sid the server assigned, in order of acceptance -/
@@ -56,7 +54,8 @@ structure View where
 
 def View.down : View := {}
 
-def hasKey (acc : List (Ns × J)) (n : Ns) : Bool := acc.any (fun e => e.1 = n)
+/-- `asked` without `n` -/
+def dropAsk (l : List Ns) (n : Ns) : List Ns := l.filter (· ≠ n)
 
 /-- every accepted namespace ends -/
 def View.endAll (v : View) : View × List Note := (View.down, v.acc.map (fun e => Note.ended e.1))
@@ -96,17 +95,17 @@ def specEv (m : Mode) (v : View) (e : Ev) : Option (View × List Note) :=
         if p.type = CONNECT then
           if natt = 0 && v.asked.contains n then
             match sidVal v.esid p.data with
-            | .ok s => some ({ v with asked := v.asked.filter (· ≠ n), acc := v.acc ++ [(n, s)] },
+            | .ok s => some ({ v with asked := dropAsk v.asked n, acc := v.acc ++ [(n, s)] },
                              [.accepted n])
             | .error _ => none
           else none
         else if p.type = CONNECT_ERROR then
           if natt = 0 && v.asked.contains n && (m = .win true || n ≠ root) then      -- F9
-            some ({ v with asked := v.asked.filter (· ≠ n), ref := n :: v.ref }, [.refused n])
+            some ({ v with asked := dropAsk v.asked n, ref := n :: v.ref }, [.refused n])
           else none
         else if p.type = DISCONNECT then
           if natt = 0 && m = .live && hasKey v.acc n then                            -- F8b
-            let rest := v.acc.filter (fun e => e.1 ≠ n)
+            let rest := dropNs v.acc n
             -- when the last namespace ends the connection is over
             if rest.isEmpty then some (View.down, [.ended n])
             else some ({ v with acc := rest }, [.ended n])
@@ -151,7 +150,7 @@ def specStep (strict : Bool) (v : View) : Input → Option (View × List Note)
       | .accept es =>
         if nss.isEmpty then none
         else
-          match specLoop wait { up := true, esid := some es, req := nss, asked := nss } nss reacts with
+          match specLoop wait { up := true, esid := some es, asked := nss } nss reacts with
           | none => none
           | some (v1, t) =>
             if wait && !(v1.asked.isEmpty && v1.ref.isEmpty) then
